@@ -562,6 +562,18 @@ class C20(Spec):
         if tier != 'quick':
             qs.append(import_q('C20.import.rsa', 'RSA', 'PROP_C08'))
             qs.append(import_q('C20.import.okp', 'OKP', 'PROP_C08'))
+        # key2jwk: one parse_one_file() call from an arbitrary state of the tool's own statics
+        from . import c18
+        bld.build_units(['tools/key2jwk.c'])
+        k2j_ov, k2j_listed = c18.instrument(bld, ['tools/key2jwk.c'], os.path.join(bld.gen, 'c20_k2j_gen.h'), 'k2j', extra=['-Dmain=tool_main'])
+        q = Query('C20.key2jwk.file.step', 'tool_key2jwk_file.c', ['tools/key2jwk.c', 'libjwt/jwt-memory.c'], models=['alloc', 'jansson_model', 'env'],
+                  defines=['VJ_MAXM=6', 'VJ_SLEN=8'], unwind=12, checks='pointer', budget=600,   # counters are arbitrary: no overflow checks
+                  remove_bodies=['__CPROVER_file_local_key2jwk_c_' + f for f in ('process_rsa_key', 'process_ec_key', 'process_eddsa_key', 'process_hmac_key', 'uuidv4')],
+                  bounds={'file': 'public PEM | private PEM | neither; key type any int; size 0..3*BUFSIZ; leading bytes arbitrary',
+                          'tool statics (arbitrary before the call)': [x['name'] for x in k2j_listed if not x['local_in']]})
+        q.includes = [bld.gen]
+        q.unit_override = k2j_ov
+        qs.append(q)
         # key2jwk: fixed-width EC members (process_ec_key driven directly)
         k2j = bld.goto_unit('tools/key2jwk.c', extra=['-Dmain=tool_main'], suffix='tool')
         for bits in ((256,) if tier == 'quick' else (256, 384, 521)):
